@@ -434,7 +434,7 @@ def _run_impl(scn, scratch, keep=False, snap=False):
             o["_audit"] = audit
             o["_root_name"] = os.path.basename(root)
         if st["op"] in ("info", "infosf"):
-            o["info"] = parse_info(out, os.path.join(root, st.get("root") or "") if st["op"] == "info" or st.get("root") is not None else _nearest(root, st["file"]))
+            o["info"] = parse_info(impl.LAST_STDOUT if isinstance(getattr(impl, "LAST_STDOUT", None), str) and outcome[0] == "exit" else out, os.path.join(root, st.get("root") or "") if st["op"] == "info" or st.get("root") is not None else _nearest(root, st["file"]))
         if st["op"] == "verifydh":
             o["dh"] = parse_dh(out)
         if st["op"] == "flatten":
